@@ -31,6 +31,11 @@ def main(argv):
     skip_suite = "--skip-suite" in argv
     if skip_suite:
         argv.remove("--skip-suite")
+    keep = None
+    if "--keep" in argv:
+        i = argv.index("--keep")
+        keep = argv[i + 1]
+        del argv[i:i + 2]
     wt, seed = argv[0], argv[1]
     checks = argv[2:]
     patch = os.path.join(seed, "patch.diff")
@@ -60,6 +65,33 @@ def main(argv):
     finally:
         sh(["git", "checkout", "--", "."], cwd=wt)
     print(json.dumps(res, indent=1))
+    if keep:
+        confirmed = res.get("demo_clean") == 0 and res.get("demo_patched") == 1 and (skip_suite or res.get("suite_rc") == 0)
+        if not confirmed:
+            print("NOT CONFIRMED - not kept")
+            return 1
+        d = os.path.join(VERIF, "seeded", keep)
+        os.makedirs(d, exist_ok=True)
+        shutil.copy(patch, os.path.join(d, "patch.diff"))
+        shutil.copy(demo, os.path.join(d, "demo.py"))
+        meta = {}
+        try:
+            meta = json.load(open(os.path.join(seed, "meta.json")))
+        except Exception:
+            pass
+        old = {}
+        if os.path.exists(os.path.join(d, "meta.json")):
+            old = json.load(open(os.path.join(d, "meta.json")))
+        meta["confirmed_by_me"] = {"demo_exit_clean_tree": res["demo_clean"], "demo_exit_with_change": res["demo_patched"],
+                                   "suite_with_change": res.get("suite", old.get("confirmed_by_me", {}).get("suite_with_change", "")),
+                                   "how": "python -m harness.seedtest <scratch worktree> <seed dir> <checks>: clean demo, git apply, "
+                                          "demo, full pytest, ./check with VERIF_REPO=<worktree>, git checkout -- ."}
+        det = old.get("checks_run", {})
+        for c in checks:
+            det[c + ":" + tier] = {"exit": res["check_" + c]["exit"], "first_lines": [l.split("/replays/")[-1] for l in res["check_" + c]["lines"][:3]]}
+        meta["checks_run"] = det
+        meta["detected"] = any(v["exit"] == 1 for v in det.values())
+        json.dump(meta, open(os.path.join(d, "meta.json"), "w"), indent=1)
     return 0
 
 
